@@ -75,6 +75,8 @@ def plan(tier, seed):
         if t['space'] == 'seed-slice' and q:
             t['legacy'] = (True,)
         tasks.append(t)
+    # long chains: more than 32 atoms, several residues of the same kind (numbering / naming far from the origin)
+    tasks.append({'space': 'long-chains', 'kind': 'long'})
     # hash seed batches
     B = G.Bound(max_nodes=3, max_depth=1, max_open=1, max_rings=1, bonds=(), ring_styles=('d',), names=['A', 'B'], names_free=True)
     bases, ex = BF.base_strings(B)
@@ -106,6 +108,18 @@ def resolve_all_steps(r):
 def evaluate(inp):
     from cgsmiles import MoleculeResolver, read_cgsmiles
     from cgsmiles.read_fragments import read_fragments
+    if inp.get('kind') == 'long':
+        class _R:
+            def __init__(self):
+                self.v = []
+                self.states = self.transitions = 0
+
+            def record(self, i, v):
+                if i['string'] == inp['string']:
+                    self.v.append(v)
+        r = _R()
+        run_long({}, r)
+        return r.v[0]
     if inp.get('kind') == 'hashseed':
         return replay_hashseed(inp)
     if inp.get('kind') == 'history':
@@ -339,7 +353,37 @@ def replay_hashseed(inp):
     return Verdict(outcome=here[:8])
 
 
+LONG = [
+    '{[#OHter][#PEO]|8[#OHter]}.{#PEO=[$]COC[$],#OHter=[$]O}',
+    '{[#Hter][#PS]|6[#Hter]}.{#PS=[$]CC[$]c1ccccc1,#Hter=[$][H]}',
+    '{[#A]([#B]|3)|4}.{#A=[$]CC([$])[$],#B=[$]CO[$]}',
+    '{[#PMA]|12}.{#PMA=[>]CC[<]C(=O)OC}',
+    '{[#X]|10}.{#X=[$][#P][#Q][#R][#S][$]}',
+]
+
+
+def run_long(task, R):
+    from cgsmiles import MoleculeResolver
+    for s in LONG:
+        aa = '[#P]' not in s
+        inp = {'kind': 'long', 'string': s, 'all_atom': aa}
+        try:
+            coarse, fine = MoleculeResolver.from_string(s, last_all_atom=aa).resolve()
+        except Exception as e:
+            R.record(inp, bad('raises:' + type(e).__name__, None, {'string': s}))
+            continue
+        res = O.check_numbering(coarse, fine, aa) or O.check_mapping(coarse, fine, MoleculeResolver.from_string(s, last_all_atom=aa).fragment_dicts[0], aa)
+        if res:
+            R.record(inp, bad(res[0], None, {'string': s, 'detail': res[1]}))
+        else:
+            R.record(inp, Verdict(outcome='long:%d' % len(fine)))
+    R.states += len(LONG) + 1
+    R.transitions += len(LONG)
+
+
 def run_task(task, R):
+    if task['kind'] == 'long':
+        return run_long(task, R)
     if task['kind'] == 'hashseed':
         return run_hashseed(task, R)
     if task['kind'] == 'history':
